@@ -86,11 +86,45 @@ def _simple_arg(a):
         isinstance(a, ast.Subscript) and _simple_arg(a.value)) or (isinstance(a, ast.UnaryOp) and _simple_arg(a.operand))
 
 
+def _returns_to_ifexp(stmts):
+    """[if c: return a] ... return z   /   if c: return a else: return b   ->   one expression, or None"""
+    if not stmts:
+        return None
+    st = stmts[0]
+    if isinstance(st, ast.Return):
+        return clone(st.value) if st.value is not None and len(stmts) == 1 else None
+    if isinstance(st, ast.If):
+        a = _returns_to_ifexp(st.body)
+        if a is None:
+            return None
+        if st.orelse:
+            if len(stmts) != 1:
+                return None
+            b = _returns_to_ifexp(st.orelse)
+        else:
+            b = _returns_to_ifexp(stmts[1:])
+        if b is None:
+            return None
+        return ast.IfExp(test=clone(st.test), body=a, orelse=b)
+    return None
+
+
 def _expr_helper(fn, drop_self):
     """helper of the form [name = expr]* return expr  -> (param names, defaults, lambda mapping -> expr) or None"""
     body = _strip_doc(fn.body)
     names, defaults = _params(fn, drop_self)
-    if names is None or not body or not isinstance(body[-1], ast.Return) or body[-1].value is None:
+    if names is None or not body:
+        return None
+    # a tail that only decides which value to return (guard clauses / if-else of returns) is one conditional expression
+    k = len(body)
+    while k > 0 and isinstance(body[k - 1], (ast.If, ast.Return)):
+        k -= 1
+    if k < len(body) - 1 or (k == len(body) - 1 and isinstance(body[-1], ast.If)):
+        tail = _returns_to_ifexp(body[k:])
+        if tail is None:
+            return None
+        body = list(body[:k]) + [ast.copy_location(ast.Return(value=tail), body[k])]
+    if not isinstance(body[-1], ast.Return) or body[-1].value is None:
         return None
     for st in body[:-1]:
         if not (isinstance(st, ast.Assign) and len(st.targets) == 1 and isinstance(st.targets[0], ast.Name)):
